@@ -203,7 +203,19 @@ func runC04(r *Run) {
 		r.Violate("handshake-failed", "raw", "handshake failed: %v", err)
 		return
 	}
-	rc.C.SetReadLimit(-1)
+	// half of the runs whose messages fit keep the default read limit (some code
+	// paths depend on whether a limit is in force)
+	maxMsg := 0
+	for _, m := range sc.Msgs {
+		if len(m) > maxMsg {
+			maxMsg = len(m)
+		}
+	}
+	if maxMsg > 32000 || (k+term+api)%2 == 0 {
+		rc.C.SetReadLimit(-1)
+	} else {
+		r.S.Count("probe.default-read-limit")
+	}
 
 	in := rc.Lib.In()
 	in.CutAt = int64(k)
